@@ -251,7 +251,7 @@ func (c *Chain) Project(ctx sdk.Context) map[string]any {
 			"probeHealth": probeMtpHealth(c, pctx, m), "plainHealth": plainMtpHealth(c, pctx, m)}
 	}
 	st["perp"] = map[string]any{"pools": ppools, "mtps": mtps, "openCount": int64(a.PerpetualKeeper.GetOpenMTPCount(ctx)),
-		"safetyFactor": ds(pp.SafetyFactor), "tpFlag": pp.EnableTakeProfitCustodyLiabilities}
+		"safetyFactor": ds(pp.SafetyFactor), "tpFlag": pp.EnableTakeProfitCustodyLiabilities, "fixedFunding": ds(pp.FixedFundingRate)}
 
 	// ---- accounted pool
 	acc := map[string]any{}
